@@ -418,7 +418,7 @@ def clip_case(ctx, case: Case, geom, gclass: str, buffer: int, items: list, fail
         if case.conv == 'shoc_standard':
             for k, (py, px) in (('left', (False, True)), ('back', (True, False)), ('node', (True, True))):
                 got = np.asarray(ds[k + '_mask'].values).astype(bool)
-                want = smear_expected(exp, py, px)
+                want = smear_expected(face, py, px)   # relative to the faces this very mask marks
                 if got.shape != want.shape or not np.array_equal(got, want):
                     fails.append((cost, f'arakawa-{k}-mask', d, f'{k}_mask {show_arr(got)} != those of the marked faces {show_arr(want)}'))
         if buffer > 0 and exp.any() and (exp[0].any() or exp[-1].any() or exp[:, 0].any() or exp[:, -1].any()):
@@ -464,6 +464,8 @@ def clip_case(ctx, case: Case, geom, gclass: str, buffer: int, items: list, fail
                               f'STRtree hit order was {tree_hits}'))
             else:
                 fails.append((cost, 'ugrid-renumber-not-contiguous', d, f'new_face_index {show_table(ds["new_face_index"].values)}'))
+        # edges / nodes are judged against the faces this very mask keeps
+        _, kedges, knodes = mesh_expected(case.faces, case.edge_info[1] if case.edge_info else None, got_kept & set(range(len(case.faces))), 0)
         got_nodes = {n for n, v in enumerate(nn) if v is not None}
         if len(nn) != case.nnodes or got_nodes != knodes:
             fails.append((cost, 'ugrid-kept-nodes', d, f'kept nodes {sorted(got_nodes)} != nodes of the kept faces {sorted(knodes)}'))
@@ -666,7 +668,14 @@ def run(ctx) -> None:
     run_primitives(ctx, items, fails)
     run_datasets(ctx, items, fails, f1_lines)
     # report oracle failures smallest input first, so that the replay written is a minimal one
-    fails.sort(key=lambda f: (f[0], f[1]))
+    def priority(sig: str) -> int:
+        if sig.startswith(('blur-', 'smear-', 'buffer-faces-')):
+            return 0          # a primitive is wrong: the root cause
+        if sig in ('grid-mask-missing-cells', 'grid-mask-extra-cells', 'ugrid-kept-faces',
+                   'ugrid-renumber-hit-order', 'ugrid-renumber-not-contiguous', 'make-clip-mask-raises'):
+            return 1
+        return 2
+    fails.sort(key=lambda f: (priority(f[1]), f[0], f[1]))
     shrunk: set = set()
     for cost, sig, desc, msg in fails:
         if sig.startswith('ugrid-') and sig not in shrunk and 'geom' in desc:
